@@ -191,7 +191,9 @@ def write_replay(pid, violation, plan, trace=None, plans_before=None,
         pid, violation.get("run_seed", 0), suffix))
     doc = {"property": pid, "signature": violation["sig"],
            "key": violation.get("key"), "detail": violation.get("detail"),
-           "run_seed": violation.get("run_seed"), "plan": plan}
+           "run_seed": violation.get("run_seed"), "plan": plan,
+           # (interpreter setting the violation was seen under: python -O)
+           "optimize": int(bool(sys.flags.optimize))}
     if plans_before:
         doc["plans_before"] = plans_before
         doc["note"] = ("the violation depends on state left in the process "
@@ -204,6 +206,16 @@ def write_replay(pid, violation, plan, trace=None, plans_before=None,
 def replay(pid, path, quiet=False):
     with open(path) as f:
         doc = json.load(f)
+    if bool(doc.get("optimize")) != bool(sys.flags.optimize):
+        # the plan was recorded under another interpreter setting (-O):
+        # re-execute this command that way
+        env = dict(os.environ)
+        env["ZCSIM_OPTIMIZE"] = "1" if doc.get("optimize") else "0"
+        os.execve(sys.executable,
+                  [sys.executable, "-B"] + (["-O"] if doc.get("optimize")
+                                            else [])
+                  + [os.path.join(boot.VERIF, "check"), pid, "--replay", path]
+                  + (["--quiet"] if quiet else []), env)
     mod = load_prop(pid)
     for k, earlier in enumerate(doc.get("plans_before") or ()):
         # the violation needs state left behind by earlier runs in the same
@@ -355,8 +367,13 @@ def remove_stale_scratch(max_age_s=7200):
 
 
 def run_check(pid, tier, seed, workers=None, runs=None, wall=None,
-              write=True, out=print):
+              write=True, out=print, opt_stratum=None):
     mod = load_prop(pid)
+    if opt_stratum is None:
+        # (a batch cut down with --runs is somebody looking at something:
+        # no second stratum then)
+        opt_stratum = runs is None
+    opt_violation = False
     t0 = time.time()
     remove_stale_scratch()
     n_runs, wall_s = mod.BUDGET[tier]
@@ -507,6 +524,43 @@ def run_check(pid, tier, seed, workers=None, runs=None, wall=None,
                               default=str)
                 out("  plan saved to " + p)
 
+    # -- stratum: the same plans under python -O -----------------------------
+    opt_info = None
+    if status == 0 and not sys.flags.optimize and opt_stratum \
+            and os.environ.get("ZCSIM_NO_OPT_STRATUM") != "1":
+        n_opt = max(64, n_runs // 10)
+        env = dict(os.environ)
+        env["ZCSIM_OPTIMIZE"] = "1"
+        env["VERIF_SEED"] = str(seed)
+        cmd = [sys.executable, "-B", "-O", os.path.join(boot.VERIF, "check"),
+               pid, "--tier", tier, "--runs", str(n_opt), "--no-evidence",
+               "--workers", str(workers), "--wall",
+               str(max(60, int(wall_s // 3)))]
+        try:
+            cp = subprocess.run(cmd, env=env, capture_output=True, text=True,
+                                timeout=wall_s + 900)
+            lines = (cp.stdout + cp.stderr).splitlines()
+            rc = cp.returncode
+        except subprocess.TimeoutExpired:
+            lines, rc = ["HARNESS-ERROR the -O stratum timed out"], 2
+        summ = [ln for ln in lines if ln.startswith("summary ")]
+        opt_info = {"runs": n_opt, "exit": rc,
+                    "summary": summ[-1] if summ else None}
+        out("stratum python -O (assert statements not executed): %d runs, "
+            "exit %d" % (n_opt, rc))
+        if rc == 1:
+            for ln in lines:
+                if not ln.startswith(("KNOWN-FINDING", "run-config",
+                                      "summary ")):
+                    out("  [-O] " + ln if not ln.startswith("VIOLATION")
+                        else ln)
+            status = 1
+            opt_violation = True
+        elif rc != 0:
+            for ln in lines[-15:]:
+                out("  [-O] " + ln)
+            status = 2
+
     for kid, (kf, n, v) in sorted(matched.items()):
         out("KNOWN-FINDING: property=%s %s [%s; matched %d time(s) in this "
             "run, e.g. run seed %08x]" % (pid, kf["what"], kid, n,
@@ -547,6 +601,7 @@ def run_check(pid, tier, seed, workers=None, runs=None, wall=None,
                                        in sorted(matched.items())},
             "harness_errors": len(agg["harness_errors"]),
             "stopped_early": stop_early,
+            "stratum_python_O": opt_info,
             "replay": replay_path,
             "repo": boot.REPO,
         }
@@ -568,6 +623,6 @@ def run_check(pid, tier, seed, workers=None, runs=None, wall=None,
            sum(agg["fired"].values()), len(unknown),
            sum(n for _k, (kf, n, v) in matched.items()),
            len(agg["harness_errors"]), wall))
-    if status == 1:
+    if status == 1 and not opt_violation:
         out("VIOLATION property=%s replay=%s" % (pid, replay_path))
     return status
